@@ -63,8 +63,15 @@ func (er *entryReaderImpl) Read(now time.Time) ([]*entry, error) {
 
 	var entries []*entry
 	addEntriesFn := func(workflow *dag.DAG, s []dag.Schedule, e entryType) {
+		// Several expressions of one list may fire in the same minute; that
+		// minute is still one operation on the DAG, not one per expression.
+		seen := map[time.Time]struct{}{}
 		for _, ss := range s {
 			next := ss.Parsed.Next(now)
+			if _, ok := seen[next]; ok {
+				continue
+			}
+			seen[next] = struct{}{}
 			entries = append(entries, &entry{
 				Next:      ss.Parsed.Next(now),
 				Job:       er.jobCreator.CreateJob(workflow, next),
